@@ -77,6 +77,10 @@ func hostileVals() []gen.Val {
 func (s *g) inDomainVal(code string) gen.Val {
 	switch code {
 	case "n", "x":
+		if code == "n" && s.pick("dtie", 3) == 0 {
+			// exact ties at the decimal places 0, 1 and 2, both signs
+			return gen.Float(rapid.SampledFrom([]float64{-2.5, -0.5, -7.5, -0.25, -2.25, -1.125, -0.125, 2.5, 0.5, 0.25, 1.125, 3.5, -3.5, 0.375, -0.375}).Draw(s.t, "dtieval"))
+		}
 		if s.pick("dn", 2) == 0 {
 			return gen.Int(int64(rapid.IntRange(-5, 12).Draw(s.t, "di")))
 		}
@@ -123,6 +127,20 @@ func genFn(s *g) Case {
 		}
 	}
 	f := cands[s.pick("dfn", len(cands))]
+	// one case in eight goes to the rounding family, whose sharp edges (exact ties, negative ties, the decimal place
+	// given as second argument) a uniform choice among ~100 functions meets a few times per million cases only
+	if s.pick("roundfam", 6) == 0 {
+		var fam []directFn
+		for _, x := range cands {
+			switch x.name {
+			case "round", "trunc", "floor", "ceil", "ceiling", "mod", "sign", "abs":
+				fam = append(fam, x)
+			}
+		}
+		if len(fam) > 0 {
+			f = fam[s.pick("dfam", len(fam))]
+		}
+	}
 	c.Fn = f.name
 	hv := hostileVals()
 	// in-domain arguments for table functions half of the time
@@ -154,6 +172,18 @@ func genFn(s *g) Case {
 				code = "s"
 			}
 			c.Args = append(c.Args, s.inDomainVal(code))
+		}
+		// round(x, d) / trunc(x, d): half of the time the decimal place is the one at which x is an exact tie
+		if len(codes) == 2 && codes[0] == "n" && codes[1] == "k" && c.Args[0].K == "float64" && s.pick("tieplace", 2) == 0 {
+			if f, ok := gen.ToFloat(c.Args[0].Go()); ok {
+				for d := 0; d <= 2; d++ {
+					scaled := math.Abs(f) * math.Pow(10, float64(d))
+					if scaled-math.Floor(scaled) == 0.5 {
+						c.Args[1] = gen.Int(int64(d))
+						break
+					}
+				}
+			}
 		}
 		return c
 	}
